@@ -184,6 +184,7 @@ class Run:
         self.call_depth = 0
         self.assumed = []
         self.track_params = {}
+        self.track_vals = {}
         self.notes = []
         self.spec_depth = 0
         self.old_state = None
@@ -215,7 +216,7 @@ class Run:
 
     def solver(self):
         s = z3.Solver()
-        s.set("timeout", 2000)
+        s.set("timeout", 400)
         for f in self.ctx.facts:
             s.add(f)
         for p in self.pc:
@@ -512,8 +513,8 @@ class Interp:
                 v = f.env[name]
                 if isinstance(v, SUndef):
                     raise PyRaise("UnboundLocalError", name)
-                if f is fr and name in self.run.track_params:
-                    self.run.param_reads.add(name)
+                if id(v) in self.run.track_vals:
+                    self.run.param_reads.add(self.run.track_vals[id(v)])
                 return v
             f = f.parent
         if fr.spec is not None or True:
@@ -539,7 +540,12 @@ class Interp:
         sv = self.ctx.reg.spec_lookup(name)
         if sv is not None:
             return sv
-        return SMod("builtins." + name)
+        if ("builtins." + name) in self.ctx.models.ext or name in ("super", "NotImplemented", "Ellipsis", "str",
+                                                                   "int", "float", "list", "dict", "tuple", "object"):
+            return SMod("builtins." + name)
+        if fr.spec is not None:
+            raise Unsupported("unknown name %s in specification" % name, node)
+        raise PyRaise("NameError", name)
 
     # -- expressions --------------------------------------------------------
     def ev(self, e, fr):
@@ -859,10 +865,9 @@ class Interp:
                 raise PyRaise("AttributeError", "%s.%s" % (o.cls, attr))
             return SFunc("objmethod", target=base, name=attr)
         if tag(base) == "ghostns":
-            g = run.ghost.get((base[1].oid, attr))
-            if g is None:
+            if (base[1].oid, attr) not in run.ghost:
                 raise Unsupported("unknown ghost field %s" % attr, node)
-            return g
+            return run.ghost[(base[1].oid, attr)]
         m = self.ctx.models.attr_hook(self, base, None, attr, node)
         if m is not NotImplemented:
             return m
